@@ -165,6 +165,17 @@ CHECKS = {
              'fingerprints and known_hosts for parsed and constructed objects.',
         note='B is the whole certificate blob for certificates, as the property states.',
         design='3 (C16)'),
+    'C19': dict(
+        technique='deterministic work metering with sys.monitoring (interpreter LINE events, frame depth) on scalable '
+                  'input shapes at n, 2n, 4n, 8n: marginal-cost doubling test plus an absolute per-byte bound; generic '
+                  'pumped shapes from seeds of every class and seeded mutants against the absolute bound',
+        text='90 hand-written scalable shapes (many items with correct length prefixes, many headers/directives/terms, '
+             'one huge value, no separator, separator runs, maximal declared counts with little data, huge digit '
+             'strings) and ~6 (thorough 60) generic pumped shapes plus 12 (600) mutants per concrete class; the marginal '
+             'number of interpreter steps per added byte must not grow between n..2n and 4n..8n, every input stays '
+             'under 20000 + 6000 steps/byte, frame depth does not grow with n.',
+        note='Interpreter-level steps only: C-level copying inside slices is invisible to the meter (stated limit).',
+        design='3 (C19)'),
     'C08': dict(
         technique='differential testing against an independent RFC reference codec (vf/ref/dns.py): Hypothesis-generated '
                   'plain-data models + a seeded boundary grid; compose == reference RDATA, parse(reference) recovers '
